@@ -999,3 +999,29 @@ Proof.
   - vm_compute. reflexivity.
   - vm_compute. reflexivity.
 Qed.
+
+(* pop order: the entry the timer thread wakes has a minimal deadline among the
+   whole heap (TimerHeap ordering), and is due *)
+Theorem fire_pops_minimum : forall s tok w,
+  snd (step s (TFire tok)) = OWoken w ->
+  In w (heap s) /\ w_dl w < clock s /\ forall x, In x (heap s) -> w_dl w <= w_dl x.
+Proof.
+  intros s tok w H. cbn in H. unfold do_fire in H.
+  destruct (pc s); try discriminate.
+  destruct (find_tok tok (heap s)) as [w0|] eqn:F; [|discriminate].
+  destruct (is_min w0 (heap s) && (w_dl w0 <? clock s)) eqn:G; [|discriminate].
+  cbn in H. inv H. apply andb_true_iff in G. destruct G as [M D].
+  apply find_tok_in in F. destruct F as [F _]. apply Z.ltb_lt in D.
+  repeat split; auto. intros x Hx. unfold is_min in M. rewrite forallb_forall in M.
+  apply Z.leb_le. auto.
+Qed.
+
+(* TimerHeap::remove: consuming Cancel(id) leaves no entry of id and keeps all others *)
+Theorem cancel_step_removes : forall s id q lim seen,
+  pc s = Receiving lim seen -> queue s = MCancel id :: q ->
+  let s' := fst (step s TRecv) in
+  (forall x, In x (heap s') <-> In x (heap s) /\ w_id x <> id) /\ queue s' = q.
+Proof.
+  intros s id q lim seen P Q. cbn. unfold do_recv. rewrite P, Q. cbn.
+  split; [|reflexivity]. intros x. apply heap_remove_in.
+Qed.
